@@ -2405,6 +2405,83 @@ def pair9_boundary_inputs(P, R, L, rule="PAIR-9"):
         R.check(rule, fn + "|range-of-boundary-expanded-set", ok, k.where(),
                 "the file set whose key range is computed was expanded by add_boundary_inputs first",
                 "set %s; expansions of the same set at lines %s" % (sorted(map(str, sk)), [a.line for a in doms]))
+    # the expansion works on the FILLED set: whatever is added to an input set (extend / append / push) is followed by the
+    # boundary expansion of that set on every path to the return (expanding the still empty parent set is a no-op)
+    fills = [c for c in b.calls() if not b.is_cleanup(c.bb) and (c.name or "") in (
+        "std::vec::Vec::extend", "<std::vec::Vec<T, A> as std::iter::Extend<T>>::extend", "std::vec::Vec::append", "std::vec::Vec::push",
+        "std::vec::Vec::extend_from_slice") and c.args]
+    n_f = 0
+    for f in fills:
+        sf = _vec_signature(b, f.args[0])
+        exp = [a for a in ab if _vec_signature(b, a.args[1]) & sf]
+        if not sf or not exp or f.target is None:
+            continue
+        n_f += 1
+        ok = all(b.must_pass(r, through_nodes=[a.bb for a in exp], start=f.target) for r in b.return_blocks())
+        R.check(rule, fn + "|expansion-follows-the-fill", ok, f.where(),
+                "files added to an input set are followed by the boundary expansion of that set before the function returns",
+                "set %s; expansions at lines %s" % (sorted(map(str, sf)), [a.line for a in exp]))
+    R.floor(rule, "fills of a boundary-expanded input set in finalize_compaction_inputs", n_f, 1)
+    # a candidate set that REPLACES an input set (the grown inputs of the expansion branch) has been boundary-expanded with
+    # the files of that set's own level: slot 0 with files[level], slot 1 (the parent set) with files[level + 1]
+    INDEXERS_ = {"<std::vec::Vec<T, A> as std::ops::Index<I>>::index", "<std::vec::Vec<T, A> as std::ops::IndexMut<I>>::index_mut",
+                 "core::slice::index::index", "std::array::index", "<[T; N] as std::ops::Index<I>>::index", "core::array::<impl std::ops::Index<I> for [T; N]>::index"}
+    from ..dataflow import TRANSPARENT as _TR
+
+    def searched_level(a):
+        lv_ = None
+        for o in origins(b, a.args[0], transparent=_TR - INDEXERS_):
+            if o.kind == "call" and (o.name in INDEXERS_ or "index" in (o.name or "").lower()) and o.site is not None and len(o.site.args) > 1:
+                lv_ = level_expr(b, o.site.args[1])
+        if lv_ is None:
+            for il in _index_locals(b, a.args[0]):
+                lv_ = level_expr(b, {"k": "copy", "pl": {"l": il, "p": []}})
+        return lv_
+
+    def named_local(op, depth=0):
+        """the named local a plain operand / reference denotes (through moves and `&mut x`)"""
+        if op["k"] not in ("copy", "move") or depth > 6:
+            return None
+        l = op["pl"]["l"]
+        if b.local_name(l) is not None and not any(isinstance(e, dict) for e in op["pl"]["p"]):
+            return l
+        for d in b.defs().get(l, []):
+            if d[0] == "stmt":
+                rv_ = d[3]["rv"]
+                if rv_["k"] == "use":
+                    r_ = named_local(rv_["ops"][0], depth + 1)
+                    if r_ is not None:
+                        return r_
+                elif rv_["k"] in ("ref", "rawptr") and not any(isinstance(e, dict) for e in rv_["pl"]["p"]):
+                    r_ = named_local({"k": "copy", "pl": rv_["pl"]}, depth + 1)
+                    if r_ is not None:
+                        return r_
+        return None
+    n_rep = 0
+    for bb in range(b.n):
+        if b.is_cleanup(bb):
+            continue
+        for st in b.blocks[bb]["stmts"]:
+            if st["k"] != "assign" or st["rv"]["k"] != "use" or st["rv"]["ops"][0]["k"] not in ("copy", "move"):
+                continue
+            fps = [e for e in st["pl"]["p"] if isinstance(e, dict) and "f" in e]
+            if not fps or fps[-1].get("n") != "input_files":
+                continue
+            slot = None
+            for il in [e["idx"] for e in st["pl"]["p"] if isinstance(e, dict) and "idx" in e]:
+                cs_ = [x.name for x in origins(b, {"k": "copy", "pl": {"l": il, "p": []}}) if x.kind == "const"]
+                if cs_:
+                    slot = int(cs_[0])
+            src = named_local(st["rv"]["ops"][0])
+            if slot is None or src is None:
+                continue
+            exp = [a for a in ab if named_local(a.args[1]) == src and b.must_pass(bb, through_nodes=[a.bb])]
+            right = [a for a in exp if searched_level(a) == ("level", slot)]
+            n_rep += 1
+            R.check(rule, fn + "|replacement-set-expanded-with-its-own-level|slot=%s" % slot, bool(right), "%s:%s" % (b.file, st.get("line")),
+                    "a vector that replaces input_files[%s] was boundary-expanded with the files of level + %s before" % (slot, slot),
+                    "expansions of `%s` at lines %s, searched in %s" % (b.local_name(src), [a.line for a in exp], [searched_level(a) for a in exp]))
+    R.floor(rule, "whole-set replacements of an input set", n_rep, 2)
     # the parent-level set is expanded too, with the parent level's files
     lv = [level_expr(b, a.args[0]) for a in ab]
     par = [a for a in ab if any(o.kind == "binop" and o.name.startswith("Add") for x in [a.args[0]] for o in origins(b, x, transparent=__import__("rdbcheck.dataflow", fromlist=["x"]).TRANSPARENT | {
@@ -3007,7 +3084,13 @@ def pair9_levels(P, R, L, rule="PAIR-9"):
             elif s_[0] == "field" and s_[2] == ("0",):
                 want = 0
         if want is None:
-            want = 0   # a local candidate set for the compaction level (expanded0)
+            # a local candidate set (expanded0 / expanded1): its level is the one its files were collected from
+            want = 0
+            for o in origins(b, a.args[1]):
+                if o.kind == "call" and (o.name or "").endswith("get_overlapping_compaction_inputs_strong") and o.site is not None and len(o.site.args) > 1:
+                    lx = level_expr(b, o.site.args[1])
+                    if lx and lx[0] == "level" and lx[1] is not None:
+                        want = lx[1]
         # which level's files are searched? (`files[level]` is a place index projection, or an Index call)
         lv = None
         from ..dataflow import TRANSPARENT
@@ -4235,6 +4318,7 @@ def bundle_retention(P, R, L):
     R.once(ord3c_shutdown_not_installed, P, R, L)
     R.once(pair15_charge_same_version, P, R, L)
     R.once(pair12_file_level_pairs, P, R, L)
+    R.once(grd30_base_level_cursor, P, R, L)
 
 
 def bundle_liveness(P, R, L):
@@ -4262,6 +4346,9 @@ def bundle_readpath(P, R, L):
     R.once(own10_cache_partitions, P, R, L)
     R.once(own11_table_cache_key, P, R, L)
     R.once(ord21_file_loader_commits_after_open, P, R, L)
+    R.once(lvl1_level_loops_cover_all_levels, P, R, L)
+    R.once(verd2_not_found_only_for_a_miss, P, R, L)
+    R.once(atom1_positional_read_is_one_operation, P, R, L)
     agr2_codec_pairs(P, R, L, groups=("table",))
     R.once(grd27_separator_strictly_below_next_key, P, R, L)
 
@@ -5453,18 +5540,212 @@ def err4_status_chain(P, R, L, rule="ERR-4"):
         n += 1
         R.check(rule, ge.path + "|includes-the-status-of-the-children", reaches_child_status(ge, "iterators"), where(ge),
                 "get_error (consulted by the compaction before it installs its output) also returns an error a child met while stepping", "")
-    st_ = P.body("versioning::file_iterators::FilesEntryIterator::set_table_iter")
-    if st_ is None:
-        R.missing_anchor(rule, "FilesEntryIterator::set_table_iter")
-    else:
+    # wherever the file-level iterator drops or replaces its table iterator, the status of that iterator is kept first
+    # (set_table_iter, and the two skip helpers that drop it at either end of the file list)
+    n_st = 0
+    for p_, st_ in sorted(P.bodies.items()):
+        if "versioning::file_iterators::FilesEntryIterator" not in p_ or st_.kind == "closure":
+            continue
+        stores = field_stores(st_, "current_table_iter")
+        if not stores:
+            continue
         R.analysed(st_)
         n += 1
+        n_st += 1
         saves = [c.bb for c in st_.calls() if not st_.is_cleanup(c.bb) and
                  ((c.declared_name or "") == STATUS or (P.bodies.get(c.t.get("resolved") or "") is not None and c.t.get("local") and
                   any((x.declared_name or "") == STATUS for x in P.bodies[c.t["resolved"]].calls())))]
-        stores = field_stores(st_, "current_table_iter")
         bad = [s[2].get("line") for s in stores if not st_.must_pass(s[0], through_nodes=saves)]
-        R.check(rule, st_.path + "|status-kept-before-the-table-iterator-is-replaced", bool(stores) and bool(saves) and not bad, where(st_),
+        R.check(rule, p_ + "|status-kept-before-the-table-iterator-is-replaced", bool(saves) and not bad, where(st_),
                 "every assignment to current_table_iter is preceded by reading the status of the iterator it replaces",
                 "stores at line(s) %s without a preceding status read" % bad if bad else "%d stores, %d status reads" % (len(stores), len(saves)))
-    R.floor(rule, "links of the status chain", n, 8)
+    R.floor(rule, "FilesEntryIterator methods that assign current_table_iter", n_st, 3)
+    R.floor(rule, "links of the status chain", n, 10)
+
+
+def ord22_writer_offset_after_the_write(P, R, L, rule="ORD-22"):
+    """LogWriter::current_block_offset is the writer's only knowledge of where it is inside the 32 KiB block: padding and
+    fragmentation are computed from it. A failed write is reported to the caller, but the writer object lives on (the
+    manifest writer is kept after a failed log_and_apply) — so the offset may advance only after the bytes are in the
+    file: in emit_block every store to current_block_offset lies behind the Ok edge of every write to the log file that
+    precedes it, and no write follows the store."""
+    fn = "logs::LogWriter::emit_block"
+    b = P.body(fn)
+    if b is None:
+        return R.missing_anchor(rule, fn)
+    R.analysed(b)
+    writes = [c for c in b.calls() if not b.is_cleanup(c.bb) and (c.declared_name or c.name or "") in
+              ("std::io::Write::write_all", "std::io::Write::write", "std::io::Write::flush", "fs::traits::RandomAccessFile::append")
+              and any("log_file" in o.path for o in origins(b, c.args[0]))]
+    data_writes = [c for c in writes if not (c.declared_name or c.name or "").endswith("flush")]
+    stores = field_stores(b, "current_block_offset")
+    bad = []
+    for s in stores:
+        for w in data_writes:
+            ok_e = [e for t in result_tests(b, w.dest["l"]) for e in t.ok_edges()]
+            if not (ok_e and b.must_pass(s[0], through_edges=ok_e)):
+                bad.append("the offset is advanced at line %s without the write at line %s having succeeded" % (s[2].get("line"), w.line))
+    R.check(rule, fn + "|offset-advanced-only-after-the-bytes-were-written", bool(stores) and bool(data_writes) and not bad, where(b),
+            "every store to current_block_offset lies behind the Ok edge of every write_all to the log file", "; ".join(bad) or "%d stores, %d writes" % (len(stores), len(data_writes)))
+
+
+LEVEL_LOOPS = {
+    # function -> number of `a..MAX_NUM_LEVELS` loops confirmed by reading (every one of them has to visit the last level)
+    "compaction::manifest::CompactionManifest::is_base_level_for_key": 1,      # older levels that may still hold the key
+    "db::DB::compact_range": 1,                                                # deepest level with overlap
+    "versioning::version::Version::finalize": 1,                               # compaction scores
+    "versioning::version::Version::get_overlapping_files": 1,                  # lookup candidates
+    "versioning::version::Version::get_representative_iterators": 1,           # scan sources
+    "versioning::version_builder::VersionBuilder::apply_changes": 1,           # files of the new version
+    "versioning::version_set::VersionSet::get_live_files": 1,                  # files the collector must keep
+    "versioning::version_set::VersionSet::write_snapshot": 2,                  # compaction pointers, files
+}
+
+
+def lvl1_level_loops_cover_all_levels(P, R, L, rule="LVL-1"):
+    """The LSM has MAX_NUM_LEVELS (7) levels and several loops must visit every one of them: a loop that stops one level
+    early loses the deepest level silently (its files are not searched, not scanned, not carried into the next version,
+    not written to the manifest snapshot, or not protected from the garbage collector) — and nothing notices before data
+    reaches that level. In the functions below every `a..b` range whose end is a level-count-like constant ends at
+    exactly MAX_NUM_LEVELS."""
+    total = 0
+    for fn, expected in sorted(LEVEL_LOOPS.items()):
+        b = P.body(fn)
+        if b is None:
+            R.missing_anchor(rule, fn)
+            continue
+        R.analysed(b)
+        ends = []
+        for bb in range(b.n):
+            if b.is_cleanup(bb):
+                continue
+            for st in b.blocks[bb]["stmts"]:
+                rv = st["rv"]
+                if st["k"] == "assign" and rv["k"] == "aggregate" and (rv.get("adt") or "").endswith("ops::Range") and len(rv["ops"]) == 2:
+                    eo = origins(b, rv["ops"][1])
+                    ec = {str(o.name) for o in eo if o.kind == "const"}
+                    # `MAX_NUM_LEVELS - 1` is an unfolded binop at mir-opt-level 0
+                    for o in eo:
+                        if o.kind == "binop" and o.extra:
+                            inner = {str(x.name) for op_ in o.extra[1]["rv"]["ops"] for x in origins(b, op_) if x.kind == "const"}
+                            if "7" in inner:
+                                ec.add("%s(%s)" % (o.name, ",".join(sorted(inner))))
+                    if ec & {"5", "6", "7", "8"} or any("(" in x for x in ec):
+                        ends.append((st.get("line"), sorted(ec)))
+        total += len(ends)
+        bad = ["line %s ends at %s" % (ln, "/".join(ec)) for ln, ec in ends if ec != ["7"]]
+        short = len(ends) < expected and len(ends) > 0
+        R.check(rule, fn + "|level-loops-end-at-MAX_NUM_LEVELS", not bad and not short, where(b),
+                "every level range of this function ends at MAX_NUM_LEVELS (7): the deepest level is visited",
+                "; ".join(bad) or ("%d level range(s)" % len(ends) if ends else "no constant level range (rewritten without a range: not decided)"))
+    R.floor(rule, "constant level ranges in the listed functions", total, 6)
+
+
+def grd30_base_level_cursor(P, R, L, rule="GRD-30"):
+    """CompactionManifest::is_base_level_for_key keeps one monotone cursor per older level (keys arrive in ascending
+    order). Answering `true` lets compact_tables drop a tombstone, so the cursor discipline is a retention guard:
+    (a) the cursor passes a file only over the exact edge `user key > file.largest` — a key that lies in the gap in FRONT
+        of the file must leave the cursor on it (later keys may fall into that file);
+    (b) it passes as many files as necessary: the increment sits in a loop of its own inside the loop over the levels
+        (advancing one file per call leaves the cursor behind and a file that holds the key is never looked at);
+    (c) `false` is returned only for `smallest <= user key <= largest` of the file under the cursor."""
+    b = P.body(IS_BASE_LEVEL)
+    if b is None:
+        return R.missing_anchor(rule, IS_BASE_LEVEL)
+    R.analysed(b)
+    incs = [s for s in range(b.n) if not b.is_cleanup(s) for st in b.blocks[s]["stmts"]
+            if st["k"] == "assign" and any(isinstance(e, dict) and e.get("n") == "base_level_pointers" for e in st["pl"]["p"])]
+    # stores through IndexMut: `*index_mut(&mut self.base_level_pointers, level) = ..`
+    for c in b.calls():
+        if not b.is_cleanup(c.bb) and (c.name or "").endswith("index_mut") and any("base_level_pointers" in o.path for o in origins(b, c.args[0])):
+            d = c.dest["l"]
+            for s in range(b.n):
+                for st in b.blocks[s]["stmts"]:
+                    if st["k"] == "assign" and st["pl"]["l"] == d and "*" in st["pl"]["p"]:
+                        incs.append(s)
+    incs = sorted(set(incs))
+    is_key = lambda os_: any(o.kind == "call" and o.name == GET_USER_KEY and o.site is not None and
+                             any(x.kind == "param" and x.name == 2 for x in origins(b, o.site.args[0])) for o in os_)
+    is_bound = lambda which: (lambda os_: any(o.kind == "call" and o.name == GET_USER_KEY and o.site is not None and
+                                               any(x.kind == "call" and (x.name or "").endswith(which) for x in origins(b, o.site.args[0])) for o in os_))
+    past = []   # edges on which key > largest
+    for c in comparisons(b):
+        past += c.edges_where("gt", is_key, is_bound("::largest_key"), exact=True)
+    ok_a = bool(incs) and bool(past) and all(b.must_pass(s, through_edges=past) for s in incs)
+    R.check(rule, IS_BASE_LEVEL + "|cursor-passes-a-file-only-when-the-key-is-beyond-it", ok_a, where(b),
+            "base_level_pointers[level] is advanced only over the exact edge `user key > file.largest_key`",
+            "increment blocks %s, `beyond` edges %d" % (incs, len(past)))
+    # (b) an inner loop: the increment can reach itself without going through the level iterator's next()
+    lvl_next = [c.bb for c in b.calls() if not b.is_cleanup(c.bb) and (c.name or "").endswith("range::next") or (c.declared_name or "") == "std::iter::Iterator::next"]
+    ok_b = bool(incs) and all(any(s in b.reachable(t, removed_nodes=lvl_next) for _, t in b.edges(s)) for s in incs)
+    R.check(rule, IS_BASE_LEVEL + "|cursor-advances-in-a-loop-of-its-own", ok_b, where(b),
+            "the increment lies on a cycle that does not pass the iteration over the levels (the cursor skips every file the key is beyond)",
+            "level iterator steps at bb%s" % sorted(lvl_next))
+    # (c) `return false` only inside [smallest, largest]
+    inside = []
+    for c in comparisons(b):
+        inside += c.edges_where("ge", is_key, is_bound("::smallest_key"), exact=True)
+    not_past = []
+    for c in comparisons(b):
+        not_past += c.edges_where("le", is_key, is_bound("::largest_key"), exact=True)
+    falses = [s for s in range(b.n) if not b.is_cleanup(s) for st in b.blocks[s]["stmts"]
+              if st["k"] == "assign" and st["pl"]["l"] == 0 and not st["pl"]["p"] and st["rv"]["k"] == "use" and st["rv"]["ops"][0]["k"] == "const"
+              and str(st["rv"]["ops"][0].get("val")) == "0"]
+    ok_c = bool(falses) and bool(inside) and bool(not_past) and all(b.must_pass(s, through_edges=inside) and b.must_pass(s, through_edges=not_past) for s in falses)
+    R.check(rule, IS_BASE_LEVEL + "|not-base-only-inside-a-file-range", ok_c, where(b),
+            "`false` is returned only behind `user key >= smallest` and `user key <= largest` of the file under the cursor",
+            "false returns %d, lower edges %d, upper edges %d" % (len(falses), len(inside), len(not_past)))
+
+
+def verd2_not_found_only_for_a_miss(P, R, L, rule="VERD-2"):
+    """`ReadError::KeyNotFound` means "this file / block does not hold the key": Version::get answers it by searching the
+    next older file. It may therefore be produced only on a genuine miss, never as the answer to a FAILED operation — a
+    table that cannot be opened or a block that cannot be read must surface as the error it is. In the lookup chain
+    (TableCache::get, Table::get) no construction of KeyNotFound is reachable from the Err edge of a fallible call."""
+    n = 0
+    for fn in ("table_cache::TableCache::get", "tables::table::Table::get"):
+        b = P.body(fn)
+        if b is None:
+            R.missing_anchor(rule, fn)
+            continue
+        R.analysed(b)
+        knf = [bb for bb in range(b.n) if not b.is_cleanup(bb) for st in b.blocks[bb]["stmts"]
+               if st["k"] == "assign" and st["rv"]["k"] == "aggregate" and st["rv"].get("variant") == "KeyNotFound"]
+        knf += [bb for bb in range(b.n) if not b.is_cleanup(bb) for st in b.blocks[bb]["stmts"]
+                if st["k"] == "assign" and st["rv"]["k"] == "use" and st["rv"]["ops"][0]["k"] == "const" and "KeyNotFound" in (st["rv"]["ops"][0].get("text") or "")]
+        bad = []
+        sites = 0
+        for c in b.calls():
+            if b.is_cleanup(c.bb) or not c.dest or c.dest["p"]:
+                continue
+            ty = b.local_ty(c.dest["l"])
+            if not ty.startswith("std::result::Result<") or (c.declared_name or "").endswith("Try::branch") or (c.declared_name or "").endswith("from_residual"):
+                continue
+            tests = result_tests(b, c.dest["l"])
+            if not tests:
+                continue
+            sites += 1
+            for t in tests:
+                for (_, tg) in t.err_edges():
+                    r = b.reachable(tg)
+                    hit = [x for x in knf if x in r]
+                    if hit:
+                        bad.append("the failure of %s (line %s) can be answered with KeyNotFound" % ((c.name or "").rsplit("::", 2)[-1], c.line))
+        n += 1
+        R.check(rule, fn + "|a-failed-operation-is-not-a-miss", not bad, where(b),
+                "no KeyNotFound is constructed on a path from the Err edge of a fallible call", "; ".join(sorted(set(bad))) or "%d fallible sites, %d KeyNotFound constructions" % (sites, len(knf)))
+    R.floor(rule, "lookup functions examined", n, 2)
+
+
+def atom1_positional_read_is_one_operation(P, R, L, rule="ATOM-1"):
+    """All readers of a table share one file handle (Table keeps it; blocks are read concurrently by lookups, scans and
+    compactions), so ReadonlyRandomAccessFile::read_from has to be a positional read that does not go through the
+    handle's cursor: no implementation seeks and then reads (two steps that interleave with another reader's)."""
+    impls = [p for p in P.bodies if p.endswith("::read_from") and "ReadonlyRandomAccessFile" in p]
+    R.floor(rule, "implementations of ReadonlyRandomAccessFile::read_from", len(impls), 2)
+    for p in sorted(impls):
+        b = P.bodies[p]
+        R.analysed(b)
+        seeks = [c for c in sites_reaching(P, b, lambda c: (c.declared_name or "") in ("std::io::Seek::seek", "std::io::Seek::rewind", "std::io::Seek::stream_position"))]
+        R.check(rule, p + "|no-seek-then-read", not seeks, where(b),
+                "read_from does not move the shared cursor (no Seek::seek reachable)", "seek reachable through line(s) %s" % [c.line for c in seeks] if seeks else "")
